@@ -30,6 +30,26 @@ type shared struct {
 	idx     *s2.ShapeIndex
 	shapes  []s2.Shape
 	indexes []*s2.ShapeIndex // every index reachable by the ops
+	// opts: one EdgeQueryOptions value per option combination, created before
+	// the goroutines start and shared by all of them (each goroutine still
+	// builds its own EdgeQuery objects from it): configuration is read-only.
+	opts map[string]*s2.EdgeQueryOptions
+}
+
+func optsKey(furthest bool, o Op) string { return fmt.Sprintf("%v/%d/%v", furthest, o.N, o.I) }
+
+func makeOpts(furthest bool, o Op) *s2.EdgeQueryOptions {
+	var opts *s2.EdgeQueryOptions
+	if furthest {
+		opts = s2.NewFurthestEdgeQueryOptions()
+	} else {
+		opts = s2.NewClosestEdgeQueryOptions()
+	}
+	opts.IncludeInteriors(o.I)
+	if o.N > 0 {
+		opts.MaxResults(o.N)
+	}
+	return opts
 }
 
 func loopsOf(rings [][]gen.P) []*s2.Loop {
@@ -41,7 +61,16 @@ func loopsOf(rings [][]gen.P) []*s2.Loop {
 }
 
 func build(c *Case) *shared {
-	s := &shared{kind: c.Kind}
+	s := &shared{kind: c.Kind, opts: map[string]*s2.EdgeQueryOptions{}}
+	for _, w := range c.G {
+		for _, o := range w.Ops {
+			for _, furthest := range []bool{false, true} {
+				if k := optsKey(furthest, o); s.opts[k] == nil {
+					s.opts[k] = makeOpts(furthest, o)
+				}
+			}
+		}
+	}
 	switch c.Kind {
 	case "loop":
 		s.loop = c.Loop.Loop()
@@ -149,15 +178,9 @@ func (x *wctx) edgeQuery(o Op, furthest bool) *s2.EdgeQuery {
 	if q := x.eq[key]; q != nil {
 		return q
 	}
-	var opts *s2.EdgeQueryOptions
-	if furthest {
-		opts = s2.NewFurthestEdgeQueryOptions()
-	} else {
-		opts = s2.NewClosestEdgeQueryOptions()
-	}
-	opts.IncludeInteriors(o.I)
-	if o.N > 0 {
-		opts.MaxResults(o.N)
+	opts := x.sh.opts[optsKey(furthest, o)]
+	if opts == nil { // (serial oracle runs may ask for a combination no goroutine list contains)
+		opts = makeOpts(furthest, o)
 	}
 	var q *s2.EdgeQuery
 	if furthest {
